@@ -85,6 +85,17 @@ def parseBOp (s : String) : Option BOp :=
 
 def iterStr (l : List (Bytes × Bytes)) : String := joinOr (l.map (fun kv => s!"{hx kv.1}={hx kv.2}")) ","
 
+/-- FNV-1a 64 over the strings, each followed by a 0 byte (as the harness does) -/
+def fnv64 (strs : List String) : Nat :=
+  strs.foldl (fun h s =>
+    let h := s.toUTF8.foldl (fun h b => ((h ^^^ b.toNat) * 1099511628211) % 18446744073709551616) h
+    ((h ^^^ 0) * 1099511628211) % 18446744073709551616) 14695981039346656037
+
+def hex16 (n : Nat) : String :=
+  String.ofList ((List.range 16).reverse.map (fun i => hexDigit (n / 16 ^ i % 16)))
+
+def digestHex (strs : List String) : String := hex16 (fnv64 strs)
+
 def stepEngine (st : SuiteState) (toks : List String) : SuiteState × String :=
   let q := st.cfg.q
   let (pos, opts) := parseOpts toks
@@ -116,6 +127,20 @@ def stepEngine (st : SuiteState) (toks : List String) : SuiteState × String :=
       match r with
       | .ok s' => ({ st with eng := s' }, s!"itdel {hx k} {commitLine r}")
       | .error _ => ({ st with eng := eng }, s!"itdel {hx k} {commitLine r}")
+  | ["load", n, p, v] =>
+    let eng := (List.range (atou n)).foldl (fun e i =>
+      e.put (unhx p ++ [48 + i / 1000 % 10, 48 + i / 100 % 10, 48 + i / 10 % 10, 48 + i % 10]) (unhx v)) st.eng
+    ({ st with eng := eng }, "load ok")
+  | "iterw" :: a :: b :: _k :: ops =>
+    -- the iterator reads from the snapshot taken when it was created; the batch lands afterwards
+    let elems := iterate q st.eng (unhx a) (unhx b) 0
+    let eng := ops.foldl (fun e op =>
+      match op.splitOn ":" with
+      | ["put", k, v] => e.put (unhx k) (unhx v)
+      | ["del", k] => e.erase (unhx k)
+      | _ => e) st.eng
+    let strs := elems.map (fun kv => s!"{hx kv.1}={hx kv.2}")
+    ({ st with eng := eng }, s!"iterw n={strs.length} digest={digestHex strs}")
   | ["dump"] => (st, s!"dump {dumpStr st.eng}")
   | ["parts", a, b] =>
     let ps := partitions st.cfg.splits (unhx a) (unhx b)
